@@ -12,6 +12,13 @@ HOSTILE_TEXT = [
     'tag \U000e0001 x', 'private  use', 'newline at end\n', '  leading blanks', 'question ?? marks', '/* comment */ // x',
     '"', '\\', '\\\\', '\'', 'a"b\\"c', '\\n literal backslash n', '\\x41 literal', '\\u0041 literal', 'R"(raw)"',
 ]
+# very long documentation (several thousand characters once escaped), dense in escapes at every offset
+HOSTILE_TEXT += [
+    'long ' + 'say "x" \\ y\n' * 400,
+    ('\u00a0\u00e9 ' * 900) + 'end',
+    'q' * 2040 + '"quoted" \\ tail \u00a0' * 30,
+    ''.join('%d "\\\n' % i for i in range(700)),
+]
 PRINTABLE_ONLY = [t for t in HOSTILE_TEXT if all(ch.isprintable() or ch in '\n\r\t' for ch in t)]
 
 
